@@ -16,6 +16,9 @@ def get_energy(x, axis=None, keepdims=False):
 
 def get_variance_for_zero_mean_signal(X, axis=None, keepdims=False):
     X = np.array(X)
+    if X.dtype.kind in 'biu':
+        # Integer signals (e.g. int16 audio): the square overflows the dtype.
+        X = X.astype(np.float64)
     # Bug fix for https://github.com/numpy/numpy/issues/9679
     if np.iscomplexobj(X):
         return np.mean(X.real ** 2 + X.imag ** 2, axis=axis, keepdims=keepdims)
